@@ -219,6 +219,16 @@ class GateCompiler(object):
         If there is idling time, add zeros properly to prevent wrong spline.
         """
         min_step_size = np.inf
+        # Two times are regarded as equal if they differ by less than the
+        # floating-point resolution of the whole schedule. (A tolerance
+        # proportional to the step size of the next pulse would swallow a
+        # real idle gap in front of a long pulse.)
+        end_times = [
+            start_time + (tlist if np.isscalar(tlist) else tlist[-1])
+            for instructions in pulse_instructions
+            for start_time, tlist, _ in instructions
+        ]
+        time_resolution = 1.0e-14 * max(end_times, default=0.0)
         # Concatenate tlist and coeffs for each control pulses
         compiled_tlist = [[] for tmp in range(num_controls)]
         compiled_coeffs = [[] for tmp in range(num_controls)]
@@ -248,7 +258,7 @@ class GateCompiler(object):
 
                 # If there is idling time between the last pulse and
                 # the current one, we need to add zeros in between.
-                if np.abs(start_time - last_pulse_time) > step_size * 1.0e-6:
+                if np.abs(start_time - last_pulse_time) > time_resolution:
                     idling_tlist = self._process_idling_tlist(
                         pulse_mode, start_time, last_pulse_time, step_size
                     )
